@@ -358,6 +358,15 @@ def gen_access(tier, safe_modules):
                     ops = list(a["ops"]) + nb_ops(pdir, m_fixed, kind, role)
                     cases.append(Case("access", {"access": an, "nb": kind, "place": pl, "module": m_fixed}, ops, "python3 {T}", a["cwd"],
                                       list(a["words"])))
+    # python's own path-related options x (plain | through a file symlink) x (nothing | M.py | M.pyc next to the real file)
+    A0 = access_paths(safe_src(("json",)))
+    for opt in ("-I", "-P", "-E", "-s", "-S", "-B", "-u", "-O", "-OO", "-q", "-b", "-d", "-R", "-IB", "-sS", "-EP"):
+        for an in ("plain", "flink-rel"):
+            a = A0[an]
+            for kind in ("none", "py", "pyc"):
+                ops = list(a["ops"]) + (nb_ops(a["real"], "json", kind, f"nb.real.{kind}.json") if kind != "none" else [])
+                cases.append(Case("access", {"access": an, "nb": kind, "place": "real", "module": "json", "option": opt, "script": a["script"]}, ops,
+                                  "python3 {T}", a["cwd"], ["python3", opt, a["tok"]]))
     # every safe module once through a rotating (access, place, kind): pairwise module x the rest
     A = None
     names = None
